@@ -1,7 +1,7 @@
 """C08 -- only well-formed PDUs are accepted, each with its unique meaning."""
 from runner import Prop
 from vlib import Case
-import mb, pdugen
+import mb, pdugen, cligen
 
 
 def proj(s):
@@ -61,7 +61,7 @@ class PROP(Prop):
                 if c.meta.get("stage") != 1:
                     continue
                 if c.meta["op"] == "REENC_REQ":
-                    w = (c.impl or "").split(" w=")[-1]
+                    w = cligen.res_and_w(c.impl or "")[1].hex()
                     if len(w) > 14 and w != "-":
                         out.append(Case("DREQ " + w[14:], {"op": "DREQ2", "tok": c.meta["tok"], "stage": 2, "b": w[14:]}))
                 else:
@@ -95,7 +95,7 @@ class PROP(Prop):
             want = "V " + c.meta["tok"]
             return None if r == want else "re-encoding of accepted value %s decodes to %s" % (c.meta["tok"][:60], r[:80])
         if op == "REENC_REQ":
-            return None if r.startswith("WAIT w=") and not r.endswith("w=-") else "accepted request value %s could not be re-encoded: %s" % (c.meta["tok"][:60], r[:80])
+            return None if r.startswith("WAIT w=") and len(cligen.res_and_w(r)[1]) > 0 else "accepted request value %s could not be re-encoded: %s" % (c.meta["tok"][:60], r[:80])
         if op == "REENC_RSP":
             return None if ",W:" in r else "accepted response value %s could not be re-encoded: %s" % (c.meta["tok"][:60], r[:80])
         return None
